@@ -20,7 +20,7 @@ class C39(core.Prop):
                  "that the checker declares independent must commute (both orders executable, same state fingerprint)")
     rule = ("Hypothesis-generated synchronisation programs (vf/syncgen.py, model-checker subset: mutexes incl. recursive and try_lock, "
             "semaphores, condition variables incl. timed waits, barriers, blocking mailbox put/get, MC_random; 2-5 actors, <=10 "
-            "operations each; one case in three from vf/mcprog.py: asynchronous comms with wait/test, actor spawn/join/exit, iprobe) run by mc_peek the way an application runs under the checker; a generated schedule prefix p (each step "
+            "operations each; one case in three from vf/mcprog.py: asynchronous comms with wait/test, iprobe) run by mc_peek the way an application runs under the checker; a generated schedule prefix p (each step "
             "picks one of the currently enabled actors) leads to a state s; for EVERY ordered pair (a, b) of actors enabled in s (and "
             "every alternative of multi-valued transitions) a forked copy executes a then b.  The checker-side transitions are rebuilt "
             "from the serialized observers exactly as AppSide/RemoteApp do.  Dependency is evaluated on executed transitions, in the "
@@ -39,7 +39,9 @@ class C39(core.Prop):
         @st.composite
         def cases(draw):
             if draw(st.integers(0, 2)) == 2:      # asynchronous comms (wait/test), actor life cycle, iprobe
-                _, sc = draw(mcprog.programs(kind=draw(st.sampled_from(["comm-async", "comm-async", "actors", "iprobe"]))))
+                # (not the "actors" programs: the interpreter's join-by-name looks the target up in the actor table outside any
+                # visible simcall, so its answer depends on the schedule in a way the checker cannot know: outside the domain)
+                _, sc = draw(mcprog.programs(kind=draw(st.sampled_from(["comm-async", "comm-async", "iprobe"]))))
             else:
                 kinds = draw(st.sampled_from(KINDS))
                 sc = draw(syncgen.programs(kinds=kinds, max_actors=4 if tier == "quick" else 5, max_ops=8 if tier == "quick" else 10, mc=True))
